@@ -69,6 +69,7 @@ type VerifC11Obs struct {
 	FinalI   int     `json:"finalI"`
 	Running  int     `json:"running"`
 	Hist     []int   `json:"hist"`    // barrier: Hist[g] = rounds in which g requesters held a ticket for the id at the same time
+	Rounds   int     `json:"rounds"`  // barrier: rounds actually played (the driver stops after 20 s on a very busy machine)
 	BadAcct  int     `json:"badAcct"` // barrier: rounds after which pools / running set were not back at their initial values
 }
 
@@ -166,12 +167,62 @@ func VerifC11RunCfg(c VerifC11Case, dir string) (obs VerifC11Obs) {
 		return
 	}
 	id := "c11job"
+	waitFor := 25 * time.Second
 	source := map[string]string{
 		"dataset": `{"Type":"DatasetSource","Name":"src"}`,
 		"sample":  fmt.Sprintf(`{"Type":"SampleSource","NumberOfEntities":%d}`, verifC11N),
 		"slow":    fmt.Sprintf(`{"Type":"SlowSource","Sleep":"900ms","BatchSize":%d}`, verifC11N),
 	}[c.Source]
 	var remote *verifC11Remote
+	if c.Source == "proxy" {
+		// DatasetSource on a proxy dataset (timeoutSeconds 1) whose remote accepts the request and stays silent
+		remote = verifC11NewRemote(true, false)
+		remote.always = true
+		if _, err := dsm.CreateDataset("proxysrc", &server.CreateDatasetConfig{
+			ProxyDatasetConfig: &server.ProxyDatasetConfig{RemoteURL: remote.srv.URL + "/datasets/x", TimeoutSeconds: 1}}); err != nil {
+			obs.Outcome = "setup-error"
+			obs.Detail = "proxy dataset: " + err.Error()
+			return
+		}
+		source = `{"Type":"DatasetSource","Name":"proxysrc"}`
+	}
+	if c.Source == "union" {
+		// an earlier run of the SAME job id over [ua, ub, uc] has stored its token; the job is then re-defined over [ua, ub]
+		for _, n := range []string{"ua", "ub", "uc"} {
+			d, err := dsm.CreateDataset(n, nil)
+			if err == nil {
+				es := make([]*server.Entity, 5)
+				for i := range es {
+					es[i] = server.NewEntity("http://v/"+n+strconv.Itoa(i), 0)
+				}
+				err = d.StoreEntities(es)
+			}
+			if err != nil {
+				obs.Outcome = "setup-error"
+				obs.Detail = "union datasets: " + err.Error()
+				return
+			}
+		}
+		first := fmt.Sprintf(`{"id":"%s","title":"%s","triggers":[{"triggerType":"cron","jobType":"incremental","schedule":"@every 2000s"}],
+			"source":{"Type":"UnionDatasetSource","DatasetSources":[{"Name":"ua"},{"Name":"ub"},{"Name":"uc"}]},"sink":{"Type":"DevNullSink"}}`, id, id)
+		jc1, err := sched.Parse([]byte(first))
+		if err == nil {
+			err = sched.AddJob(jc1)
+		}
+		if err != nil || len(jobrunner.MainCron.Entries()) != 1 {
+			obs.Outcome = "setup-error"
+			obs.Detail = fmt.Sprint("first union job: ", err)
+			return
+		}
+		jobrunner.MainCron.Entries()[0].WrappedJob.Run()
+		if r := verifC11Result(store, id); r != "success" {
+			obs.Outcome = "setup-error"
+			obs.Detail = "first union run: " + r
+			return
+		}
+		_ = store.DeleteObject(server.JobResultIndex, id)
+		source = `{"Type":"UnionDatasetSource","DatasetSources":[{"Name":"ua"},{"Name":"ub"}]}`
+	}
 	if c.Source == "http" || c.Source == "httpmid" {
 		remote = verifC11NewRemote(c.Kill, c.Source == "httpmid")
 		// not closed: httptest.Server.Close waits for the stalled request; the process exits after this case anyway
@@ -240,7 +291,9 @@ func VerifC11RunCfg(c VerifC11Case, dir string) (obs VerifC11Obs) {
 	} else {
 		bus.Emit(context.Background(), "dataset.src", nil)
 	}
-	waitFor := 25 * time.Second
+	if c.Source == "proxy" {
+		waitFor = 8 * time.Second // the request times out after 1 s
+	}
 	if c.Kill {
 		for i := 0; i < 5000 && runner.raffle.runningJob(id) == nil; i++ {
 			time.Sleep(time.Millisecond)
@@ -305,13 +358,14 @@ type verifC11Remote struct {
 	srv     *httptest.Server
 	stalled chan struct{}
 	reqs    int32
+	always  bool // every request stalls (proxy dataset)
 }
 
 func verifC11NewRemote(stall, mid bool) *verifC11Remote {
 	r := &verifC11Remote{stalled: make(chan struct{}, 4)}
 	r.srv = httptest.NewServer(http.HandlerFunc(func(w http.ResponseWriter, req *http.Request) {
 		n := atomic.AddInt32(&r.reqs, 1)
-		if stall && n > 1 {
+		if stall && n > 1 && !r.always {
 			http.Error(w, "verif remote: gone", http.StatusInternalServerError)
 			return
 		}
@@ -321,7 +375,10 @@ func verifC11NewRemote(stall, mid bool) *verifC11Remote {
 		}
 		body += `]`
 		if stall && !mid {
-			r.stalled <- struct{}{}
+			select {
+			case r.stalled <- struct{}{}:
+			default:
+			}
 			select {
 			case <-req.Context().Done():
 			case <-time.After(60 * time.Second):
@@ -525,7 +582,7 @@ func (env *VerifC11Env) RunBarrier(c VerifC11Case) (obs VerifC11Obs) {
 					if atomic.LoadInt32(&stop) != 0 {
 						return
 					}
-					if spins&1023 == 1023 {
+					if spins&63 == 63 {
 						runtime.Gosched()
 					}
 				}
@@ -536,7 +593,12 @@ func (env *VerifC11Env) RunBarrier(c VerifC11Case) (obs VerifC11Obs) {
 		}(i)
 	}
 	hist := make([]int, g+1)
+	t0 := time.Now()
 	for round := int64(1); round <= int64(c.Rounds); round++ {
+		if round&255 == 0 && time.Since(t0) > 20*time.Second {
+			break
+		}
+		obs.Rounds++
 		atomic.StoreInt64(&done, 0)
 		atomic.StoreInt64(&gate, round)
 		for spins := 0; atomic.LoadInt64(&done) < int64(g); spins++ {
